@@ -21,9 +21,11 @@ CONSTANTS L,          \* successor list length (chord.ExtendedSuccessorEntries =
           FixPred,    \* TRUE: RequestToJoin refuses (retryably) while the predecessor is nil or not pingable
           FixLeave,   \* TRUE: RequestToLeave refuses (retryably) unless the leaver is the node's predecessor
           FixWrap,    \* TRUE: stabilize cuts the new successor list after the node itself (entries past a full circle are dropped)
-          MaxTry      \* bound on join / leave attempts in the model (code: 10)
+          MaxTry,     \* bound on join / leave attempts in the model (code: 10)
+          TrackCov    \* TRUE: record in s.cov which branch of which action was taken (coverage goals; witnesses are replayed on the real code)
 
 Nil == 0
+Cov(s, tag) == IF TrackCov THEN [s EXCEPT !.cov = @ \cup {tag}] ELSE s
 
 Between(low, t, high, incl) ==
   IF high > low THEN (low < t /\ t < high) \/ (incl /\ t = high)
@@ -86,7 +88,7 @@ StabilizeF(s, n) ==
        ELSE s1
 
 CheckPredF(s, n) ==
-  IF s.pred[n] # Nil /\ s.pred[n] # n /\ ~Pingable(s, s.pred[n]) THEN [s EXCEPT !.pred[n] = Nil] ELSE s
+  IF s.pred[n] # Nil /\ s.pred[n] # n /\ ~Pingable(s, s.pred[n]) THEN [Cov(s, "checkpred-cleared") EXCEPT !.pred[n] = Nil] ELSE s
 
 (* key hand-over: Export at "from", Import at "to" (simple value overwritten, children merged), RemoveKeys at "from" *)
 MoveKeys(store, from, to, ks) ==
@@ -123,8 +125,17 @@ JoinLockOutcome(s, j) ==
   ELSE IF ~NB(s.lay, s.pred[x], j, x, FALSE) THEN "refused"                       \* ErrJoinInvalidSuccessor
   ELSE "granted"
 JoinLockEn(s, j) == s.jpc[j] = "atx"
-JoinLockF(s, j) ==
-  LET x == s.jx[j]
+JoinLockWhy(s, j) ==      \* which branch of the critical section is taken (coverage tag)
+  LET x == s.jx[j] IN
+  IF s.st[x] # "Active" THEN "join-refused-busy"
+  ELSE IF FixPred /\ s.pred[x] # x /\ (s.pred[x] = Nil \/ ~Pingable(s, s.pred[x])) THEN "join-refused-pred-unsettled"
+  ELSE IF s.pred[x] = Nil THEN "join-panic"
+  ELSE IF ~NB(s.lay, s.pred[x], j, x, FALSE) THEN "join-refused-wrong-successor"
+  ELSE IF \E k \in KeysOf(s.lay) : Present(s.store[x][k]) /\ KB(s.lay, s.pred[x], k, j, TRUE) THEN "join-granted-with-keys"
+  ELSE "join-granted-no-keys"
+JoinLockF(s0, j) ==
+  LET s == Cov(s0, JoinLockWhy(s0, j))
+      x == s.jx[j]
       o == JoinLockOutcome(s, j) IN
   IF o = "granted" THEN
      LET p == s.pred[x]
@@ -178,28 +189,29 @@ LeaveRetry(s, l) == IF s.ltry[l] + 1 >= MaxTry THEN [s EXCEPT !.lpc[l] = "failed
                     ELSE [s EXCEPT !.ltry[l] = @ + 1]
 LeaveFirstF(s, l) ==
   LET p == s.pred[l]  sc == Hd(s, l) IN
-  IF p = Nil \/ sc = Nil THEN LeaveRetry(s, l)
-  ELSE IF p = l /\ sc = l THEN [s EXCEPT !.lpc[l] = "adv", !.lp[l] = l, !.ls[l] = l]     \* alone: nothing to lock or move
+  IF p = Nil \/ sc = Nil THEN LeaveRetry(Cov(s, "leave-no-neighbour"), l)
+  ELSE IF p = l /\ sc = l THEN [Cov(s, "leave-alone") EXCEPT !.lpc[l] = "adv", !.lp[l] = l, !.ls[l] = l]     \* alone: nothing to lock or move
   ELSE IF s.lay.npos[l] > s.lay.npos[sc] THEN                                            \* successor first
-       (IF SuccGrantsLeave(s, sc, l) THEN [s EXCEPT !.st[sc] = "Transferring", !.lpc[l] = "lock2", !.lp[l] = p, !.ls[l] = sc]
-        ELSE LeaveRetry(s, l))
-  ELSE (IF s.st[l] = "Active" THEN [s EXCEPT !.st[l] = "Leaving", !.lpc[l] = "lock2", !.lp[l] = p, !.ls[l] = sc]
-        ELSE LeaveRetry(s, l))
+       (IF SuccGrantsLeave(s, sc, l) THEN [Cov(s, "leave1-succfirst-granted") EXCEPT !.st[sc] = "Transferring", !.lpc[l] = "lock2", !.lp[l] = p, !.ls[l] = sc]
+        ELSE LeaveRetry(Cov(s, IF s.st[sc] = "Active" THEN "leave1-succfirst-refused-not-predecessor" ELSE "leave1-succfirst-refused-busy"), l))
+  ELSE (IF s.st[l] = "Active" THEN [Cov(s, "leave1-selffirst-granted") EXCEPT !.st[l] = "Leaving", !.lpc[l] = "lock2", !.lp[l] = p, !.ls[l] = sc]
+        ELSE LeaveRetry(Cov(s, "leave1-selffirst-refused-busy"), l))
 
 LeaveSecondEn(s, l) == s.lpc[l] = "lock2"
 LeaveSecondF(s, l) ==
   LET sc == s.ls[l] IN
   IF s.lay.npos[l] > s.lay.npos[sc] THEN
-       (IF s.st[l] = "Active" THEN [s EXCEPT !.st[l] = "Leaving", !.lpc[l] = "locked"]
-        ELSE LeaveRetry([s EXCEPT !.st[sc] = IF @ = "Transferring" THEN "Active" ELSE @, !.lpc[l] = "try"], l))
-  ELSE (IF SuccGrantsLeave(s, sc, l) THEN [s EXCEPT !.st[sc] = "Transferring", !.lpc[l] = "locked"]
-        ELSE LeaveRetry([s EXCEPT !.st[l] = "Active", !.lpc[l] = "try"], l))
+       (IF s.st[l] = "Active" THEN [Cov(s, "leave2-succfirst-granted") EXCEPT !.st[l] = "Leaving", !.lpc[l] = "locked"]
+        ELSE LeaveRetry([Cov(s, "leave2-succfirst-refused-self-busy") EXCEPT !.st[sc] = IF @ = "Transferring" THEN "Active" ELSE @, !.lpc[l] = "try"], l))
+  ELSE (IF SuccGrantsLeave(s, sc, l) THEN [Cov(s, "leave2-selffirst-granted") EXCEPT !.st[sc] = "Transferring", !.lpc[l] = "locked"]
+        ELSE LeaveRetry([Cov(s, IF s.st[sc] = "Active" THEN "leave2-selffirst-refused-not-predecessor" ELSE "leave2-selffirst-refused-succ-busy")
+                         EXCEPT !.st[l] = "Active", !.lpc[l] = "try"], l))
 
 LeaveTransferEn(s, l) == s.lpc[l] = "locked"           \* transferKeysDownward under surrogateMu; surrogate = self
 LeaveTransferF(s, l) ==
   LET sc == s.ls[l]
       ks == {k \in KeysOf(s.lay) : Present(s.store[l][k])} IN
-  [s EXCEPT !.store = MoveKeys(s.store, l, sc, ks), !.sur[l] = l, !.lpc[l] = "adv"]
+  [Cov(s, IF ks = {} THEN "leave-transfer-no-keys" ELSE "leave-transfer-with-keys") EXCEPT !.store = MoveKeys(s.store, l, sc, ks), !.sur[l] = l, !.lpc[l] = "adv"]
 
 LeaveAdvisoryEn(s, l) == s.lpc[l] = "adv"              \* pre.FinishLeave(true, false) unless pre = self
 LeaveAdvisoryF(s, l) ==
@@ -305,7 +317,7 @@ InitState(lay, members) ==
    jpc |-> [n \in N |-> "idle"], jx |-> [n \in N |-> Nil], jp |-> [n \in N |-> Nil], jsl |-> [n \in N |-> <<>>],
    jtry |-> [n \in N |-> 0],
    lpc |-> [n \in N |-> "idle"], lp |-> [n \in N |-> Nil], ls |-> [n \in N |-> Nil], ltry |-> [n \in N |-> 0],
-   bad |-> {}]
+   bad |-> {}, cov |-> {}]
 
 Init == s = InitState(MCLayout, InitMembers) /\ ops = <<>>
 
@@ -371,6 +383,8 @@ InvNoStuck == NoStuck(s)
 InvPlacement == Placement(s)
 InvReachable == Reachable(s)
 InvNoBad == NoBad(s)
+CONSTANT Goal
+InvGoalUnreached == ~(Goal \in s.cov)          \* coverage goal: its "counterexample" is a witness behaviour
 (* C04: a read linearizes at its local access, where it must see the last linearized write: tag "staleread" in bad *)
 InvNoNonRetryable == \A i \in 1..Len(ops) : ops[i].st \notin {"notstarted", "looped"}
 ===============================================================================
